@@ -53,13 +53,28 @@ pub fn records() -> Vec<RecordBuf> {
         .expect("gdocs: vcf records")
 }
 
+/// Header with 3000 additional contigs (the BCF / VCF.gz header spans several BGZF blocks).
+pub fn header_large() -> vcf::Header {
+    let (head, chrom_line) = HEADER_TEXT.split_at(HEADER_TEXT.find("#CHROM").unwrap());
+    let mut text = String::from(head);
+    let mut x: u64 = 0x13198a2e03707344;
+    for i in 0..3000 {
+        x = x.wrapping_mul(6364136223846793005).wrapping_add(1442695040888963407);
+        let _ = writeln!(text, "##contig=<ID=c{i:04}_{:06x},length={}>", (x >> 40) & 0xffffff, 1000 + (x >> 20) % 100_000);
+    }
+    text.push_str(chrom_line);
+    let mut r = vcf::io::Reader::new(text.as_bytes());
+    r.read_header().expect("gdocs: large vcf header")
+}
+
 pub fn docs() -> Vec<VarDoc> {
     let recs = records();
     vec![
         VarDoc { name: "empty", header: vcf::Header::default(), records: vec![] },
         VarDoc { name: "header-only", header: header_full(), records: vec![] },
         VarDoc { name: "1-record", header: header_full(), records: recs[..1].to_vec() },
-        VarDoc { name: "3-records", header: header_full(), records: recs },
+        VarDoc { name: "3-records", header: header_full(), records: recs.clone() },
+        VarDoc { name: "large-header", header: header_large(), records: recs[..1].to_vec() },
     ]
 }
 
